@@ -111,6 +111,10 @@ def scan_rules(ctx, R_api, R_stream, R_fwd=None):
                     pat = c["kwargs"].get("pattern", c["args"][0] if c["args"] else None)
                     if pat != "<REGEX>":
                         bad.append(f"pattern={pat}")
+                for s in mine:
+                    if any(e.kind == "iterator_reused" for e in s.path.events):
+                        bad.append("the scan's one-shot iterator is consumed before the loop that reports the hits "
+                                   f"(path: {'; '.join(s.path.cond_labels())[:80]})")
                 ctx.check(not bad, R_api, construct, ";".join(sorted(set(bad)))[:200],
                           f"exactly one {want_api[mode]}(pattern=<rule regex>, string=<stream>, timeout) call")
                 # S3 stream
@@ -230,9 +234,11 @@ def assembly_text_unmodified(ctx, rule):
             ex = I.expr_of(text)
             if not (ex.startswith("open(") and ex.endswith(".read()") and "INPUT_0" in ex):
                 bad.add(ex[:80])
-        opens = [e for e in path.events if e.kind == "extern_call" and e.name in ("open", "builtins.open", "io.open")]
+        opens = [e for e in path.events if e.kind == "open" and "INPUT_0" in I.expr_of(e.file)]
+        if not opens:
+            bad.add("the input file is not opened with open()")
         for e in opens:
-            mode = e.kwargs.get("mode", e.args[1] if len(e.args) > 1 else None)
+            mode = e.mode
             mt = I.expr_of(mode) if mode is not None else "'r'"
             if "b" in mt.strip("'\""):
                 bad.add(f"open(..., mode={mt})")
